@@ -120,6 +120,7 @@ class Gen:
         "cons": ("fn cons<A>(x: A, xs: List<A>) -> List<A>", None),
         "cons_end": ("fn cons_end<A>(x: A, xs: List<A>) -> List<A>", None),
         "str_length": ("fn str_length(s: String) -> Scalar", None),
+        "mod": ("fn mod<T: Dim>(a: T, b: T) -> T", None),
         "str_slice": ("fn str_slice(start: Scalar, end: Scalar, s: String) -> String", None),
         "uppercase": ("fn uppercase(s: String) -> String", None),
         "lowercase": ("fn lowercase(s: String) -> String", None),
@@ -138,6 +139,13 @@ class Gen:
         ("map", "fn map<A, B>(f: Fn[(A) -> B], xs: List<A>) -> List<B> = if is_empty(xs) then [] else cons(f(head(xs)), map(f, tail(xs)))",
          'SFn "map" ["f"; "xs"] [] (ECond (ECall "is_empty" [EIdent "xs"]) (EList []) '
          '(ECall "cons" [ECallable (EIdent "f") [ECall "head" [EIdent "xs"]]; ECall "map" [EIdent "f"; ECall "tail" [EIdent "xs"]]]))'),
+        ("map2", "fn map2<A, B, C>(f: Fn[(A, B) -> C], other: A, xs: List<B>) -> List<C> = if is_empty(xs) then [] else cons(f(other, head(xs)), map2(f, other, tail(xs)))",
+         'SFn "map2" ["f"; "other"; "xs"] [] (ECond (ECall "is_empty" [EIdent "xs"]) (EList []) '
+         '(ECall "cons" [ECallable (EIdent "f") [EIdent "other"; ECall "head" [EIdent "xs"]]; '
+         'ECall "map2" [EIdent "f"; EIdent "other"; ECall "tail" [EIdent "xs"]]]))'),
+        ("foldl", "fn foldl<A, B>(f: Fn[(A, B) -> A], acc: A, xs: List<B>) -> A = if is_empty(xs) then acc else foldl(f, f(acc, head(xs)), tail(xs))",
+         'SFn "foldl" ["f"; "acc"; "xs"] [] (ECond (ECall "is_empty" [EIdent "xs"]) (EIdent "acc") '
+         '(ECall "foldl" [EIdent "f"; ECallable (EIdent "f") [EIdent "acc"; ECall "head" [EIdent "xs"]]; ECall "tail" [EIdent "xs"]]))'),
     ]
 
     def __init__(self, rng, profile):
@@ -160,9 +168,20 @@ class Gen:
     def scope_vars(self, scope, t):
         return [n for n, ty in scope.items() if ty == t]
 
+    def foreign_values(self):
+        """builtin functions of arity >= 2 usable as function VALUES (order-sensitive arguments),
+        at the monomorphic instances the generator uses"""
+        LS = tlist(S)
+        table = {"mod": ([S, S], S), "cons": ([S, LS], LS), "cons_end": ([S, LS], LS),
+                 "str_slice": ([S, S, T], T)}
+        return {n: sig for n, sig in table.items() if n in self.foreign}
+
     def fn_candidates(self, scope, argtypes, ret):
-        return [n for n, (a, r, rec) in self.fns.items()
+        user = [n for n, (a, r, rec) in self.fns.items()
                 if n not in scope and tuple(a) == tuple(argtypes) and r == ret and not rec]
+        builtin = [n for n, (a, r) in self.foreign_values().items()
+                   if n not in scope and n not in self.fns and tuple(a) == tuple(argtypes) and r == ret]
+        return user + builtin + builtin        # builtins twice: they are the rarer, order-sensitive case
 
     def lit_string(self):
         return "".join(self.rng.choice("abcdefg hij") for _ in range(self.rng.randrange(0, 4)))
@@ -215,6 +234,13 @@ class Gen:
                 a, ac = self.expr(S, d - 1, scope, nostr)
                 self.features["neg"] += 1
                 return "(-%s)" % a, "EUn UNeg (%s)" % ac
+            if c < 0.615 and "mod" in self.foreign:
+                a, ac = self.expr(S, d - 1, scope, nostr)
+                k = r.randrange(1, 10)
+                self.features["mod"] += 1
+                if r.random() < 0.3:
+                    return "mod(%s, (-%d))" % (a, k), 'ECall "mod" [%s; EUn UNeg (EScalar %d%%Z)]' % (ac, k)
+                return "mod(%s, %d)" % (a, k), 'ECall "mod" [%s; EScalar %d%%Z]' % (ac, k)
             if c < 0.63:
                 a, ac = self.expr(S, d - 1, scope, nostr)
                 k = r.randrange(1, 10)
@@ -349,6 +375,8 @@ class Gen:
             if cands:
                 f = r.choice(cands)
                 self.features["fnvalue"] += 1
+                if f in self.FOREIGN:
+                    self.features["foreign_fnvalue"] += 1
                 return f, "EIdent %s" % cstr(f)
             raise LookupError("no function of type")
         raise RuntimeError(t)
@@ -516,6 +544,10 @@ class Gen:
             return tlist(self.simple_type(False, allow_struct, depth - 1))
         if c < 0.86 and allow_struct and self.structs:
             return tstruct(r.choice(sorted(self.structs)))
+        fv = self.foreign_values()
+        if allow_fn and fv and r.random() < 0.5:
+            a, rt = fv[r.choice(sorted(fv))]
+            return tfn(a, rt)
         if allow_fn and self.fns:
             n = r.choice(sorted(self.fns))
             a, rt, rec = self.fns[n]
@@ -754,7 +786,7 @@ class Gen:
                 self.stmt_foreign(f)
         n = r.randrange(3, 11)
         if self.profile == "listlib":
-            for f in ("head", "tail", "cons", "cons_end", "len"):
+            for f in ("head", "tail", "cons", "cons_end", "len", "mod"):
                 self.stmt_foreign(f)
             LS = tlist(S)
             for name, src, coq in self.LISTLIB:
@@ -764,7 +796,9 @@ class Gen:
             self.fns["concat"] = ([LS, LS], LS, False)
             self.fns["reverse"] = ([LS], LS, False)
             self.fns["map"] = ([tfn([S], S), LS], LS, False)
-            self.fn_cost.update({"is_empty": 5, "concat": 200, "reverse": 200, "map": 250})
+            self.fns["map2"] = ([tfn([S, S], S), S, LS], LS, False)
+            self.fns["foldl"] = ([tfn([S, S], S), S, LS], S, False)
+            self.fn_cost.update({"is_empty": 5, "concat": 200, "reverse": 200, "map": 250, "map2": 250, "foldl": 250})
             self.features["listlib"] += 1
         if self.profile == "fnheavy":
             # an `apply`-style function early so that function values get used
@@ -1054,8 +1088,10 @@ def classify(impl_line, model_str):
     if len(parts) != 3:
         return "model-machine", "unparsable model output"
     m, s, d = parts
-    if BIG.search(model_str) or BIG.search(impl_line) or "e+" in impl_line.split(" ## D:")[0]:
-        return "overflow", ""
+    head_part = impl_line.split(" ## D:")[0]
+    if BIG.search(model_str) or BIG.search(impl_line) or "e+" in head_part or "NaN" in head_part or "inf" in head_part \
+            or "unmodelled-nan" in s:
+        return "overflow", ""      # outside exact integer arithmetic (also mod(x, 0) = NaN)
     iR, iO = parse_obs(io)
     mR, mO = parse_obs(m)
     sR, sO = parse_obs(s)
